@@ -329,7 +329,7 @@ Qed.
 Definition ctl_step (st : chunked_rcv) (line rest : bytes) : iter_res :=
   let st1 := set_control st [] in
   match line with
-  | [] => Continue st1 rest
+  | [] => Break (set_all (set_error st1 (Some EInvalidChunkSize)) true)
   | _ =>
     match control_line_verdict line with
     | LVBadExt => Break (set_all (set_error st1 (Some EInvalidChunkExt)) true)
@@ -459,7 +459,9 @@ Proof.
         rewrite Hs2, Hrest. reflexivity. }
       unfold ctl_step in I1, I2.
       destruct (firstn pos (control_line st ++ [b])) as [|l0 line].
-      + apply (same_cont _ _ _ (set_control st [])); auto. apply iff_cont; auto.
+      + eexists. split; [apply run_cons; rewrite I1; reflexivity|].
+        right; right. exists EInvalidChunkSize. split; [reflexivity|].
+        eexists _, _. split; [apply run_cons; rewrite I2; reflexivity | reflexivity].
       + destruct (control_line_verdict (l0 :: line)) as [sz| |].
         * destruct (0 <? sz)%N.
           -- apply (same_cont _ _ _ (set_rem (set_control st []) sz)); auto. apply iff_cont; auto.
